@@ -128,7 +128,7 @@ func (aux *Aux) parse(p property) (err error) {
 	case xmpns.FlashCompensation:
 		err = aux.FlashCompensation.UnmarshalText(p.Value())
 	case xmpns.ImageNumber:
-		aux.ImageNumber = uint16(parseUint(p.Value()))
+		aux.ImageNumber = parseUint16(p.Value())
 	case xmpns.SerialNumber:
 		aux.SerialNumber = parseString(p.Value())
 	case xmpns.Lens:
